@@ -4,7 +4,7 @@ import re
 import an
 import kstorage
 import nf
-from an import P, F, short
+from an import P, F, BITS, short
 from ctx import oracle
 from props import C05
 from terms import show
@@ -83,6 +83,12 @@ def run(ctx, chk):
                     if not an.is_call(t, re.compile(r" as std::iter::Iterator>::rev$")) or len(t[2]) != 1:
                         return False
                     inner = t[2][0]
+                    # or the stored symbol codes as integers, last symbol first: rev(map(chunks_exact(bits, BITS), load_le::<u8>))
+                    # (a symbol is at most 8 bits wide; the numeric order of the codes is the order of their bits from the top)
+                    if an.is_call(inner, re.compile(r"^<bitvec::slice::ChunksExact<.*> as std::iter::Iterator>::map::<u8, ")) and len(inner[2]) == 2:
+                        src, fn = inner[2]
+                        return an.is_call(src, re.compile(r"^bitvec::slice::api::<impl bitvec::slice::BitSlice>::chunks_exact$"), (("bits", P(1)), BITS)) and \
+                            isinstance(fn, tuple) and fn[0] == "fn" and fn[1] == "bitvec::field::BitField::load_le" and tuple(fn[2])[-1:] == ("u8",)
                     if an.is_call(inner, re.compile(r"^bitvec::slice::Iter::<.*>::by_vals$")) and len(inner[2]) == 1:
                         inner = inner[2][0]
                     return an.is_call(inner, re.compile(r"^bitvec::slice::api::<impl bitvec::slice::BitSlice>::iter$"), (("bits", P(1)),))
